@@ -6,8 +6,10 @@ import random
 
 CHECKS = {}
 
-UNMODELLED = ("EhlersFisherTransform", "PolarizedFractalEfficiency", "Tap", "Decomp")
+UNMODELLED = ("Tap", "Decomp")
 def modelled(cfg):
+    if cfg.get("k") == "PolarizedFractalEfficiency" and cfg.get("n", 0) < 3:
+        return False          # refused by the constructor
     return cfg.get("k") not in UNMODELLED and all(modelled(c) for c in cfg.get("c", []))
 
 def with_model(run, name, scope, conf=True):
